@@ -1,4 +1,6 @@
 import FmpRpc.Proofs.TransportInv
+import FmpRpc.Props.PeerHyp
+import FmpRpc.Proofs.TransportInvBH
 /-
   C09 — a handler's context is cancelled only for its own cancellation or on
   close.  Hypothesis on the peer (spelled out, `PeerSeqsDistinct`): the seqnos
@@ -9,18 +11,12 @@ import FmpRpc.Proofs.TransportInv
 namespace FmpRpc.C09
 open FmpRpc.T
 
-def callSeqs (h : List Evt) : List Int :=
-  h.filterMap fun e => match e with | .delivered (.call q true _) => some q | _ => none
-
-def PeerSeqsDistinct (s : St) : Prop :=
-  (callSeqs s.hist).Nodup ∧ (∀ q ∈ callSeqs s.hist, 0 ≤ q) ∧
-  (∀ q, Evt.delivered (.cancel q) ∈ s.hist → 0 ≤ q)
-
 /-- task keys of distinct handlers are distinct -/
 theorem task_keys_distinct (s : St) (hr : Reachable s) (hp : PeerSeqsDistinct s) (h1 h2 : Nat)
     (hl1 : h1 < s.nextHandler) (hl2 : h2 < s.nextHandler) (hne : h1 ≠ h2) :
     (s.handlers h1).task ≠ (s.handlers h2).task := by
-  sorry
+  have hp0 : PSD0 s := hp
+  exact (PInv_reachable s hr (PSD_of_PSD0 s hp0)).dist h1 h2 hl1 hl2 hne
 
 /-- **Every cancellation of a handler's context has a legitimate cause**: a
     cancellation frame for its own seqno, the transport closing, or the end of
@@ -32,7 +28,11 @@ theorem cancel_justified (s : St) (hr : Reachable s) (hp : PeerSeqsDistinct s) (
         Evt.delivered (.cancel (s.handlers h).seq) ∈ s.hist) ∨
     ((s.handlers h).cause = .closing ∧ s.rStop = true) ∨
     ((s.handlers h).cause = .ownEnd ∧ (s.handlers h).pc = .exited) := by
-  sorry
+  have hp0 : PSD0 s := hp
+  rcases (PInv_reachable s hr (PSD_of_PSD0 s hp0)).just h hc with ⟨a, b, c⟩ | h2 | h3
+  · exact Or.inl ⟨a, b, (mem_delivs _ _).mp c⟩
+  · exact Or.inr (Or.inl h2)
+  · exact Or.inr (Or.inr h3)
 
 /-- When the transport closes, the context of every handler still running is
     cancelled (every started, unfinished handler is in the task table when the
@@ -41,6 +41,7 @@ theorem close_cancels_all (s : St) (hr : Reachable s) (hp : PeerSeqsDistinct s) 
     (hstop : s.taskLoop = false)
     (hrun : (s.handlers h).pc ≠ .absent ∧ (s.handlers h).pc ≠ .exited) :
     (s.handlers h).ctxCancelled = true := by
-  sorry
+  have hp0 : PSD0 s := hp
+  exact (PInv_reachable s hr (PSD_of_PSD0 s hp0)).stopped hstop h (Or.inl hrun)
 
 end FmpRpc.C09
